@@ -336,6 +336,41 @@ def run(ctx):
     ctx.holds('P6', m, sf, '%d field stores, all inside set_fields' % sum(
         len(v) for k, v in sf_stores.items() if k in fields), construct='set_fields stores')
 
+    # ---- P8: the changed-field filter compares with ==
+    ctx.rule('P8', 'the filter that decides which requested fields changed (_safe_eq) says "equal" only for values '
+                   'that are == (or both None): no coarser comparison drops a requested change', 1)
+    se = m.functions.get('_safe_eq')
+    if se is None:
+        ctx.unknown('P8', m, None, '_safe_eq not found', construct='_safe_eq')
+    else:
+        a_, b_ = [x.arg for x in se.args.args][:2]
+        allowed = {'%s is None' % a_, '%s is None' % b_, '%s == %s' % (a_, b_), '%s == %s' % (b_, a_),
+                   '%s is %s' % (a_, b_), '%s is %s' % (b_, a_)}
+        try:
+            rcs = [c for c in symex.Walker(want_returns=True).run(se) if c.kind == 'return']
+        except symex.TooManyPaths:
+            rcs = []
+        bad = None
+        for c in rcs:
+            v = c.sub
+            if isinstance(v, ast.Constant) and v.value is False:
+                continue
+            # a path that can answer "equal": every test it rests on is an identity / == test of the two values
+            tests = [(t, p_) for t, p_ in c.conds] + ([(v, True)] if not isinstance(v, ast.Constant) else [])
+            for t, p_ in tests:
+                for leaf in ast.walk(t):
+                    if isinstance(leaf, (ast.Compare, ast.Call)) and not any(
+                            isinstance(q_, (ast.Compare, ast.Call)) and q_ is not leaf for q_ in ast.walk(leaf)):
+                        txt = unparse(leaf)
+                        pos_ = p_ if leaf is t else True
+                        if txt not in allowed and bad is None and not (isinstance(leaf, ast.Compare) and not pos_):
+                            bad = (c, txt)
+        ctx.decide('P8', bool(rcs) and bad is None, m, se, '_safe_eq answers from `is None` and `==` tests only',
+                   '_safe_eq can answer "equal" on the strength of `%s`: values that differ but pass that test (strings '
+                   'with the same set of characters, lists in another order) are dropped from the changed fields by '
+                   'sub_context(), so the derived state keeps the old value' % (bad[1] if bad else ''),
+                   construct='_safe_eq')
+
     ctx.assume('user subclasses of ParsingState and values that compare equal but behave '
                'differently (_safe_eq uses ==) are outside the rule')
     return 'proof', EXPLANATION
